@@ -173,7 +173,20 @@ pub mod boundary {
                 return true;
             }
 
-            let this = self.inner.0.lock().unwrap();
+            // Lock the two lists in the order of their addresses, so that
+            // two threads comparing the same two lists in opposite order
+            // cannot deadlock.
+            let (this, other) = if Arc::as_ptr(&self.inner.0)
+                < Arc::as_ptr(&other.inner.0)
+            {
+                let this = self.inner.0.lock().unwrap();
+                let other = other.inner.0.lock().unwrap();
+                (this, other)
+            } else {
+                let other = other.inner.0.lock().unwrap();
+                let this = self.inner.0.lock().unwrap();
+                (this, other)
+            };
 
             // SAFETY: The rawlist represents a slice of T::Transformed so
             // we can safely construct a slice from it's parts as long as we
@@ -184,8 +197,6 @@ pub mod boundary {
                     this.len,
                 )
             };
-
-            let other = other.inner.0.lock().unwrap();
 
             // SAFETY: The rawlist represents a slice of T::Transformed so
             // we can safely construct a slice from it's parts as long as we
@@ -472,8 +483,18 @@ impl PartialEq for ErasedList {
             return true;
         }
 
-        let this = self.0.lock().unwrap();
-        let other = other.0.lock().unwrap();
+        // Lock the two lists in the order of their addresses, so that two
+        // threads comparing the same two lists in opposite order cannot
+        // deadlock.
+        let (this, other) = if Arc::as_ptr(&self.0) < Arc::as_ptr(&other.0) {
+            let this = self.0.lock().unwrap();
+            let other = other.0.lock().unwrap();
+            (this, other)
+        } else {
+            let other = other.0.lock().unwrap();
+            let this = self.0.lock().unwrap();
+            (this, other)
+        };
 
         if this.len != other.len {
             return false;
